@@ -158,7 +158,20 @@ def parseF64 (s : List Char) : Option Nat :=
 
 /-! ## aggregate states (`AggregateState`) -/
 
-/-- result values: the query values plus floats and lists -/
+/-- the values a property can have here: those of the core model plus floats (bit patterns) -/
+inductive Val where
+  | null
+  | int (i : Int)
+  | str (s : String)
+  | float (bits : Nat)
+  deriving DecidableEq, Repr
+
+def lift : Query.Val → Val
+  | .null => .null
+  | .int i => .int i
+  | .str s => .str s
+
+/-- result values: the property values plus lists -/
 inductive AVal where
   | null
   | int (i : Int)
@@ -171,6 +184,7 @@ def ofVal : Val → AVal
   | .null => .null
   | .int i => .int i
   | .str s => .str s
+  | .float b => .float b
 
 /-- `AggregateFunction` (the ones of C08) -/
 inductive AggFn where
@@ -220,6 +234,7 @@ def St.init (fn : AggFn) (distinct : Bool) : St :=
 /-- `value_to_f64`: integers convert, strings are parsed ("RDF stores numeric literals as strings") -/
 def valueToF64 : Val → Option Nat
   | .int i => some (ofInt i)
+  | .float b => some b
   | .str s => parseF64 s.toList
   | .null => none
 
@@ -245,12 +260,27 @@ def cmpIntStr (i : Int) (s : String) : Option Ordering :=
   | some fs => partialCmp (ofInt i) fs
   | none => some .lt
 
+def cmpStrFloat (s : String) (f : Nat) : Option Ordering :=
+  match parseF64 s.toList with
+  | some fs => partialCmp fs f
+  | none => some .gt
+
+def cmpFloatStr (f : Nat) (s : String) : Option Ordering :=
+  match parseF64 s.toList with
+  | some fs => partialCmp f fs
+  | none => some .lt
+
 def cmpAgg (a b : Val) : Option Ordering :=
   match a, b with
   | .int x, .int y => some (compare x y)
+  | .float x, .float y => partialCmp x y
+  | .int x, .float y => partialCmp (ofInt x) y          -- `(*a as f64).partial_cmp(b)`
+  | .float x, .int y => partialCmp x (ofInt y)
   | .str x, .str y => cmpStrStr x y
   | .str s, .int i => cmpStrInt s i
   | .int i, .str s => cmpIntStr i s
+  | .str s, .float f => cmpStrFloat s f
+  | .float f, .str s => cmpFloatStr f s
   | _, _ => none
 
 def minStep (cur : Option Val) (v : Val) : Option Val :=
@@ -267,6 +297,7 @@ def maxStep (cur : Option Val) (v : Val) : Option Val :=
 def sumIntStep (s : Int) (v : Val) : St :=
   match v with
   | .int i => .sumInt (s + i)
+  | .float x => .sumFloat (fadd (ofInt s) x)            -- "convert to float sum": `*sum as f64 + v`
   | .str t => (match parseF64 t.toList with
                | some x => .sumFloat (fadd (ofInt s) x)
                | none => .sumInt s)
@@ -276,6 +307,7 @@ def sumIntDStep (s : Int) (seen : List Val) (v : Val) : St :=
   if seen.contains v then .sumIntD s seen
   else match v with
     | .int i => .sumIntD (s + i) (v :: seen)
+    | .float x => .sumFloatD (fadd (ofInt s) x) (v :: seen)
     | .str t => (match parseF64 t.toList with
                  | some x => .sumFloatD (fadd (ofInt s) x) (v :: seen)
                  | none => .sumIntD s (v :: seen))
@@ -290,6 +322,7 @@ def sumFloatStep (f : Nat) (v : Val) : Nat :=
 def avgStep (s : Int) (f : Nat) (n : Int) (v : Val) : St :=
   match v with
   | .int i => .avg (s + i) f (n + 1)
+  | .float x => .avg s (fadd f x) (n + 1)
   | .str t => (match parseF64 t.toList with
                | some x => .avg s (fadd f x) (n + 1)
                | none => .avg s f n)
@@ -363,8 +396,15 @@ def runChunks (aggs : List AggExpr) (sts : List St) (chunks : List (List Row)) :
 def simpleAgg (aggs : List AggExpr) (chunks : List (List Row)) : List AVal :=
   (runChunks aggs (initAll aggs) chunks).map St.finalize
 
-/-- `GroupKey::from_row` -/
-def keyOf (groupCols : List Nat) (row : Row) : List Val := groupCols.map (fun c => row.getD c .null)
+/-- `GroupKey::from_row`: `GroupKeyPart` has no float variant: a float key is stored as `Int64(f.to_bits() as i64)` and
+comes back out of `to_values` as that integer -/
+def asI64 (bits : Nat) : Int := if bits < 2 ^ 63 then (bits : Int) else (bits : Int) - 2 ^ 64
+
+def keyPart : Val → Val
+  | .float b => .int (asI64 b)
+  | v => v
+
+def keyOf (groupCols : List Nat) (row : Row) : List Val := groupCols.map (fun c => keyPart (row.getD c .null))
 
 abbrev Groups := List (List Val × List St)
 
@@ -387,7 +427,8 @@ def hashAgg (groupCols : List Nat) (aggs : List AggExpr) (chunks : List (List Ro
 
 Nulls are ignored. `count` counts, `sum` of integers is the exact integer (when it leaves the
 64-bit range the result is not constrained: the code continues with a float), `avg` is the exact
-mean rounded once to a double, `sum` / `avg` of a value that is not a number is a type error, `min` / `max` pick the extremum of the value order (numbers before
+mean rounded once to a double, `sum` / `avg` of a value that is not a number is a type error; with floats among the inputs `sum` and `avg` are the exact sum / mean
+of the exact values, rounded once (not constrained when an input is infinite or NaN); `min` / `max` pick the extremum of the value order (numbers before
 strings, as in the engine's own total order `OrderableValue`; integers by value, strings by code
 points — a string is a string, whatever it spells), `collect`
 gathers the values. DISTINCT removes duplicates first. -/
@@ -417,12 +458,43 @@ def intOf : Val → Int
 
 def intSum (vs : List Val) : Int := (vs.map intOf).foldl (· + ·) 0
 
-/-- total value order of the specification -/
+/-- the exact value of a double, times 2^1074 (an integer for every finite pattern; infinities sit
+above all finite values) -/
+def scaledMag (b : Nat) : Nat :=
+  if expField b = 0 then fracField b else (2 ^ 52 + fracField b) * 2 ^ (expField b - 1)
+
+def scaledF (b : Nat) : Int := if fNeg b then -(scaledMag b : Int) else (scaledMag b : Int)
+
+def isFloat : Val → Bool
+  | .float _ => true
+  | _ => false
+
+/-- an integer or a finite float -/
+def isNum : Val → Bool
+  | .int _ => true
+  | .float b => expField b != 2047
+  | _ => false
+
+/-- exact numeric value times 2^1074 -/
+def scaledOf : Val → Int
+  | .int i => i * 2 ^ 1074
+  | .float b => scaledF b
+  | _ => 0
+
+def scaledSum (vs : List Val) : Int := (vs.map scaledOf).foldl (· + ·) 0
+
+/-- value order of the specification: numbers by their exact numeric value (an integer and a float
+compare as the rationals they denote; NaN compares with nothing), numbers before strings, strings
+by code points -/
 def specLt (a b : Val) : Bool :=
   match a, b with
   | .int x, .int y => x < y
   | .str x, .str y => x < y
   | .int _, .str _ => true
+  | .float _, .str _ => true
+  | .float x, .float y => !isNaN x && !isNaN y && decide (scaledF x < scaledF y)
+  | .int x, .float y => !isNaN y && decide (x * 2 ^ 1074 < scaledF y)
+  | .float x, .int y => !isNaN x && decide (scaledF x < y * 2 ^ 1074)
   | _, _ => false
 
 def specMin : List Val → Option Val
@@ -447,12 +519,15 @@ def specAgg (fn : AggFn) (distinct : Bool) (input : List Val) : SRes :=
   | .count => .ok (.int input.length)            -- COUNT(*): rows
   | .countNonNull => .ok (.int vs.length)
   | .sum =>
-    if !vs.all isInt then .err "type"
-    else if inI64 (intSum vs) then .ok (.int (intSum vs)) else .any
+    if vs.all isInt then (if inI64 (intSum vs) then .ok (.int (intSum vs)) else .any)
+    else if !vs.all (fun v => isInt v || isFloat v) then .err "type"
+    else if !vs.all isNum then .any                  -- an infinity or a NaN among the inputs
+    else .ok (.float (roundQ (decide (scaledSum vs < 0)) (scaledSum vs).natAbs (2 ^ 1074)))
   | .avg =>
-    if !vs.all isInt then .err "type"
-    else if vs.isEmpty then .ok .null
-    else .ok (.float (meanF64 (intSum vs) vs.length))
+    if vs.all isInt then (if vs.isEmpty then .ok .null else .ok (.float (meanF64 (intSum vs) vs.length)))
+    else if !vs.all (fun v => isInt v || isFloat v) then .err "type"
+    else if !vs.all isNum then .any
+    else .ok (.float (roundQ (decide (scaledSum vs < 0)) (scaledSum vs).natAbs (vs.length * 2 ^ 1074)))
   | .min => .ok (ofVal ((specMin vs).getD .null))
   | .max => .ok (ofVal ((specMax vs).getD .null))
   | .collect => .ok (.list vs)
@@ -490,8 +565,22 @@ def AggQ.core (q : AggQ) : Q :=
   { start := q.start, hops := q.hops, preds := q.preds, ret := .countStar, distinct := false,
     orderBy := [], skip := none, limit := none }
 
-def srcVal (b : Binding) : Src → Val
-  | .prop v k => valAt b v k
+/-- the float-valued properties of the graph: (node id, key, bit pattern). The core graph model has
+no float values; a property listed here overrides what the node itself carries for that key. -/
+abbrev FloatTab := List (Nat × Nat × Nat)
+
+def ftLookup (ft : FloatTab) (id k : Nat) : Option Nat :=
+  (ft.find? (fun e => e.1 == id && e.2.1 == k)).map (fun e => e.2.2)
+
+def propX (ft : FloatTab) (n : Node) (k : Nat) : Val :=
+  match ftLookup ft n.id k with
+  | some bits => .float bits
+  | none => lift (propOf n k)
+
+def srcVal (ft : FloatTab) (b : Binding) : Src → Val
+  | .prop v k => (match b[v]? with
+    | some n => propX ft n k
+    | none => .null)
   | .node v => match b[v]? with
     | some n => .int n.id          -- a node column reads as its id
     | none => .null
@@ -514,14 +603,14 @@ def itemSrc : Item → Src
   | .key v k => .prop v k
   | .agg _ _ s => s
 
-def keyVals (q : AggQ) (b : Binding) : List Val :=
-  (keyItems q.items).map (fun i => srcVal b (itemSrc i))
+def keyVals (ft : FloatTab) (q : AggQ) (b : Binding) : List Val :=
+  (keyItems q.items).map (fun i => srcVal ft b (itemSrc i))
 
-def aggVals (q : AggQ) (b : Binding) : List Val :=
-  (aggItems q.items).map (fun i => srcVal b (itemSrc i))
+def aggVals (ft : FloatTab) (q : AggQ) (b : Binding) : List Val :=
+  (aggItems q.items).map (fun i => srcVal ft b (itemSrc i))
 
 /-- the row handed to the aggregate operator: key columns, then one column per aggregate -/
-def opRow (q : AggQ) (b : Binding) : Row := keyVals q b ++ aggVals q b
+def opRow (ft : FloatTab) (q : AggQ) (b : Binding) : Row := keyVals ft q b ++ aggVals ft q b
 
 /-- the physical aggregate of an item whose input sits in column `c` -/
 def physAgg (c : Nat) : Item → AggExpr
@@ -594,19 +683,19 @@ aggregate when there is no key, a hash aggregate otherwise. (The output vectors 
 `avg` are typed Int64 / Float64 and always receive a value of that type or a null; those of `sum`,
 `min`, `max`, `collect` are untyped. The factorized aggregate the planner chooses for `count` over
 the variables of an unfiltered chain of two or more hops returns the same count.) -/
-def aggRows (q : AggQ) (bs : List Binding) : List (List AVal) :=
+def aggRows (ft : FloatTab) (q : AggQ) (bs : List Binding) : List (List AVal) :=
   let kept := bs.filter (passes q.preds)
-  let rows := kept.map (opRow q)
+  let rows := kept.map (opRow ft q)
   let nk := (keyItems q.items).length
   if nk = 0 then [simpleAgg (physAggs q) [rows]] else hashAgg (List.range nk) (physAggs q) [rows]
 
-def finishAgg (q : AggQ) (bs : List Binding) : Res :=
-  let out := aggRows q bs
+def finishAgg (ft : FloatTab) (q : AggQ) (bs : List Binding) : Res :=
+  let out := aggRows ft q bs
   let out := if q.orderBy.isEmpty then out else sortA (q.orderBy.map (fun (i, asc) => (outPos q.items i, asc))) out
   .rows (window q.skip q.limit out)
 
 /-- as coded: the scan / expand pipeline feeds the aggregate operator -/
-def Pipe.execAgg (g : Graph) (q : AggQ) : Res := finishAgg q (Pipe.bindings g q.core)
+def Pipe.execAgg (ft : FloatTab) (g : Graph) (q : AggQ) : Res := finishAgg ft q (Pipe.bindings g q.core)
 
 /-! ### specification: group the bindings that pass the predicate by their key values, evaluate
 every aggregate on its group, lay the row out as RETURN lists it, then ORDER BY / SKIP / LIMIT -/
@@ -614,13 +703,13 @@ every aggregate on its group, lay the row out as RETURN lists it, then ORDER BY 
 abbrev dedupKeys (ks : List (List Val)) : List (List Val) := dedupFirst ks
 
 /-- the cells of one output row in RETURN order; `ks` holds the values of the keys not yet placed -/
-def specCells (grp : List Binding) : List Val → List Item → List SRes
+def specCells (ft : FloatTab) (grp : List Binding) : List Val → List Item → List SRes
   | _, [] => []
-  | ks, .key _ _ :: rest => .ok (ofVal (ks.headD .null)) :: specCells grp ks.tail rest
-  | ks, .agg fn d s :: rest => specAgg (specFn fn) d (grp.map (fun b => srcVal b s)) :: specCells grp ks rest
+  | ks, .key _ _ :: rest => .ok (ofVal (ks.headD .null)) :: specCells ft grp ks.tail rest
+  | ks, .agg fn d s :: rest => specAgg (specFn fn) d (grp.map (fun b => srcVal ft b s)) :: specCells ft grp ks rest
 
-def specRow (q : AggQ) (kept : List Binding) (k : List Val) : List SRes :=
-  specCells (kept.filter (fun b => keyVals q b == k)) k q.items
+def specRow (ft : FloatTab) (q : AggQ) (kept : List Binding) (k : List Val) : List SRes :=
+  specCells ft (kept.filter (fun b => keyVals ft q b == k)) k q.items
 
 def sresErr : SRes → Option String
   | .err e => some e
@@ -634,10 +723,10 @@ def sresAny : SRes → Bool
   | .any => true
   | _ => false
 
-def finishSpec (q : AggQ) (bs : List Binding) : Res :=
+def finishSpec (ft : FloatTab) (q : AggQ) (bs : List Binding) : Res :=
   let kept := bs.filter (passes q.preds)
-  let keys := if (keyItems q.items).isEmpty then [[]] else dedupKeys (kept.map (keyVals q))
-  let cells := keys.map (specRow q kept)
+  let keys := if (keyItems q.items).isEmpty then [[]] else dedupKeys (kept.map (keyVals ft q))
+  let cells := keys.map (specRow ft q kept)
   match (cells.flatten.filterMap sresErr).head? with
   | some e => .error e
   | none =>
@@ -647,7 +736,7 @@ def finishSpec (q : AggQ) (bs : List Binding) : Res :=
       let out := if q.orderBy.isEmpty then out else sortA q.orderBy out
       .rows (window q.skip q.limit out)
 
-def Spec.evalAgg (g : Graph) (q : AggQ) : Res := finishSpec q (Spec.bindings g q.core)
+def Spec.evalAgg (ft : FloatTab) (g : Graph) (q : AggQ) : Res := finishSpec ft q (Spec.bindings g q.core)
 
 /-! ## Gremlin (`gremlin_translator.rs`): a linear traversal
 `g.V().hasLabel(l) {.has(…)}* {.out|in|both(t) {.hasLabel(l)} {.has(…)}*}* [.dedup()] [.order().by(k, dir)]
@@ -679,7 +768,7 @@ def GremQ.core (q : GremQ) : Q :=
 
 def lastProp (b : Binding) (k : Nat) : Val :=
   match b.getLast? with
-  | some n => propOf n k
+  | some n => lift (propOf n k)
   | none => .null
 
 def lastId (b : Binding) : Val :=
@@ -759,10 +848,10 @@ def GqlQ.core (q : GqlQ) : Q :=
   { start := ⟨some q.label⟩, hops := q.hops, preds := q.preds, ret := .props q.cols, distinct := false,
     orderBy := [], skip := none, limit := none }
 
-def projA (cols : List (Nat × Nat)) (b : Binding) : List AVal := (project cols b).map ofVal
+def projA (cols : List (Nat × Nat)) (b : Binding) : List AVal := (project cols b).map (fun v => ofVal (lift v))
 
 def sortBindingsByRoot (k : Nat) (asc : Bool) (bs : List Binding) : List Binding :=
-  (sortA [(0, asc)] (bs.zipIdx.map (fun (b, i) => [ofVal (valAt b 0 k), .int i]))).filterMap
+  (sortA [(0, asc)] (bs.zipIdx.map (fun (b, i) => [ofVal (lift (valAt b 0 k)), .int i]))).filterMap
     (fun sr => match sr with | [_, .int i] => bs[i.toNat]? | _ => none)
 
 /-- the clauses after the pattern: `orderBy` sorts the bound rows by a property of the root
